@@ -28,6 +28,8 @@ type callsScen struct {
 	ExtId   bool                `json:"extId"`
 	Wrap    string              `json:"wrap"`
 	DeclB   string              `json:"declB"`
+	Under   bool                `json:"under"`
+	DeclL   bool                `json:"declL"`
 	GenOK   bool                `json:"genOK"`
 	Model   string              `json:"model"`
 	Ins     []json.RawMessage   `json:"ins"`
@@ -36,7 +38,7 @@ type callsScen struct {
 func callsFieldTypes(fk string) (string, string) {
 	m := map[string][2]string{"i2i": {"int", "int"}, "i2s": {"int", "string"}, "ptrA": {"*A", "*A2"}, "ptrB": {"*B", "*B2"},
 		"slcA": {"[]A", "[]A2"}, "slcB": {"[]B", "[]B2"}, "valB": {"B", "B2"},
-		"s2s": {"string", "string"}, "mapB": {"map[string]B", "map[string]B2"}, "mapK": {"map[int]int", "map[string]int"}, "mapV": {"map[string]int", "map[string]string"}, "p2vB": {"*B", "B2"}, "p2s": {"*int", "string"}, "mth": {"int", "int"}}
+		"s2s": {"string", "string"}, "mapB": {"map[string]B", "map[string]B2"}, "mapK": {"map[int]int", "map[string]int"}, "mapV": {"map[string]int", "map[string]string"}, "p2vB": {"*B", "B2"}, "p2s": {"*int", "string"}, "mth": {"int", "int"}, "nI2s": {"NI", "string"}, "nL": {"LP", "[]int"}}
 	return m[fk][0], m[fk][1]
 }
 
@@ -61,6 +63,9 @@ func callsSource(i int, s callsScen) string {
 			}
 		}
 	}
+	if s.Under {
+		wrap += "// goverter:useUnderlyingTypeMethods\n"
+	}
 	fmt.Fprintf(&b, "package %s\n\nimport \"math\"\n\ntype Ctx struct{ Tok string }\n\n// goverter:converter\n// goverter:extend %s\n%stype C interface {\n", pkg, ext, wrap)
 	params := "source A"
 	if s.RootCtx {
@@ -79,7 +84,12 @@ func callsSource(i int, s callsScen) string {
 	case "ctx":
 		b.WriteString("\t// goverter:context ctx\n\tConvB(source B, ctx Ctx) B2\n")
 	}
-	b.WriteString("}\n")
+	if s.DeclL && s.RootErr {
+		b.WriteString("\t// goverter:useZeroValueOnPointerInconsistency\n\tConvL(source []*int) ([]int, error)\n")
+	} else if s.DeclL {
+		b.WriteString("\t// goverter:useZeroValueOnPointerInconsistency\n\tConvL(source []*int) []int\n")
+	}
+	b.WriteString("}\n\ntype NI int\ntype LP []*int\n")
 	b.WriteString("\nvar faults bool\n\nfunc SetFaults(on bool) { faults = on }\n\ntype ErrInj struct{ Tok string }\n\nfunc (e ErrInj) Error() string { return \"inj:\" + e.Tok }\n\n")
 	b.WriteString("func tok(v int) string {\n\tswitch v {\n\tcase 0:\n\t\treturn \"z\"\n\tcase math.MinInt:\n\t\treturn \"a\"\n\tcase math.MaxInt:\n\t\treturn \"b\"\n\t}\n\treturn \"?\"\n}\n\n")
 	eparams, mark := "v int", "\"E(\" + tok(v) + \")\""
@@ -371,7 +381,7 @@ func cmdCalls(args []string) {
 	defer obs.Close()
 	base := func(i int) map[string]any {
 		s := scens[i]
-		return map[string]any{"id": i, "dir": s.Dir, "extId": s.ExtId, "wrap": s.Wrap, "shape": s.Shape, "rootErr": s.RootErr, "extErr": s.ExtErr, "rootCtx": s.RootCtx, "extCtx": s.ExtCtx, "declB": s.DeclB}
+		return map[string]any{"id": i, "dir": s.Dir, "extId": s.ExtId, "wrap": s.Wrap, "shape": s.Shape, "rootErr": s.RootErr, "extErr": s.ExtErr, "rootCtx": s.RootCtx, "extCtx": s.ExtCtx, "declB": s.DeclB, "under": s.Under, "declL": s.DeclL}
 	}
 	nOK := 0
 	for i := range scens {
